@@ -10,8 +10,11 @@ CHECKS = {
     "C02": ("exploration", "3.C02", "Seeded search over wake-up schedules, run windows and wall-clock faults; cycle times are compared with a discrete-event reference model and every logged request must be honoured at exactly its time. Sampling of the schedule space; wall-clock independence is checked differentially on every case."),
     "C03": ("exploration", "3.C03", "Seeded search over programs built from the activity/validity vocabulary; each run is compared evaluation by evaluation (which user code ran, on which value/modified/valid triples, what it wrote) with an executable reference interpreter. Sampling of programs and input histories."),
     "C06": ("exploration", "3.C06", "Each seeded program is wired in several admissible statement orders and seeded with duplicated and near-duplicated sub-expressions and sinks; streams must be identical across orders and equal to the reference interpreter on the un-shared program, and the compiled node count may never fall below the number of statement classes that must stay distinct. Sampling of programs, orders and duplicate placements."),
+    "C07": ("exploration", "3.C07", "Refinement against the system's own sequential behaviour: the fresh-process trace of a scenario is compared line by line with its trace after seeded process history, under builder reuse (incl. after failed runs), under wall-clock faults, and while 1-3 other executors run concurrently on simulated threads whose interleaving a seeded scheduler decides at every intercepted mutex operation and node evaluation. Sampling of scenarios, histories and interleavings; word-level races are out of reach."),
     "C08": ("exploration", "3.C08", "Seeded search over programs with one to three feedback edges and writer scripts; for every feedback the stream at the reader is compared with the stream at the bound producer shifted by exactly one MIN_TD, and the whole run with the reference interpreter. Sampling."),
     "C09": ("exploration", "3.C09", "Every case wires the same sub-graph definition inline and as a nested child at depth 1, 2 and 3 against the same inputs in one run; recorder streams must agree across the four variants and with the reference interpreter, and child graphs must be evaluated inside their parent's bracket at the parent's time. Sampling of definitions, scalars and inputs. Three genuine differences are recorded as known findings and reported as KNOWN-FINDING."),
+    "C14": ("fault_enumeration", "3.C14", "For each seeded program every single fault point (node x phase x occurrence<=3) is injected in its own run, plus seeded fault pairs, under cleanup_on_error on/off and request_stop; the complete lifecycle-observer history of each run is checked against start/stop pairing, order, exactly-once, no-evaluation-outside-lifetime, rollback and error-identity invariants. Exhaustive over single fault points per program; programs and pairs are sampled."),
+    "C15": ("fault_enumeration", "3.C15", "For each seeded program with error capture (exception_time_series / try_except_) every subset of the capturing node's evaluation cycles (complete up to 5 evaluations) is made to throw; each run is compared with the fault-free run (independent streams unchanged), with the error-tick count/message rule and with the reference interpreter under the same fault plan. Exhaustive over cycle subsets for small targets; programs are sampled."),
     "C18": ("exploration", "3.C18", "Seeded operation sequences on the real NodeScheduler executed by scripted nodes inside running graphs; every query answer after every operation is compared with a pending-set reference model and every pending time must produce an evaluation at exactly that time. Sampling of operation sequences."),
 }
 NOTE = ("Trusted base: g++ 12 / libstdc++, the /verif harness vocabulary and reference models (sim/*.py), the interposition of pthread and clock_gettime; "
